@@ -249,7 +249,14 @@ func checkCodecCase(c codecCase, rec *Rec) error {
 	if err := checkSparse6(g, in, rec); err != nil {
 		return err
 	}
-	return checkMulticode(g, in, rec)
+	if err := checkMulticode(g, in, rec); err != nil {
+		return err
+	}
+	// encoding is read-only: the same value encodes the same way again and is unchanged
+	if a, b := graph.Graph6Encode(in), graph.Sparse6Encode(in); a != oracle.RefGraph6(g) || b != oracle.RefSparse6(g) {
+		return fmt.Errorf("encoding the same %s value a second time gives different strings (n=%d)", c.Rep, g.N)
+	}
+	return sameAs(fmt.Sprintf("the %s graph after being encoded", c.Rep), in, g)
 }
 
 // ---- all labelled graphs on few vertices ------------------------------------------------------
@@ -494,12 +501,17 @@ func checkPruferCase(c pruferCase, rec *Rec) error {
 	}
 	// encode inverts decode, on every representation
 	for name, in := range reps(ref) {
-		var back []int
-		if p := try(func() { back = graph.PruferEncode(in) }); p != nil {
-			return fmt.Errorf("PruferEncode(%s tree of %v) panicked: %v", name, c.Code, p)
+		for round := 1; round <= 2; round++ { // twice on the same value: encoding must not consume its argument
+			var back []int
+			if p := try(func() { back = graph.PruferEncode(in) }); p != nil {
+				return fmt.Errorf("PruferEncode(%s tree of %v) panicked (call #%d): %v", name, c.Code, round, p)
+			}
+			if !eqInts(back, c.Code) {
+				return fmt.Errorf("PruferEncode(PruferDecode(%v)) = %v (%s representation, call #%d on the same value)", c.Code, back, name, round)
+			}
 		}
-		if !eqInts(back, c.Code) {
-			return fmt.Errorf("PruferEncode(PruferDecode(%v)) = %v (%s representation)", c.Code, back, name)
+		if err := sameAs(fmt.Sprintf("the %s tree after PruferEncode", name), in, ref); err != nil {
+			return err
 		}
 	}
 	// tree direction: an arbitrary labelled tree (the relabelled one) -> code -> the same tree
